@@ -1,5 +1,5 @@
 #!/usr/bin/env python3
-"""Regenerate sections 7.2 - 7.5 of DESIGN.md from the evidence files, the known-findings file and seeded/*/meta.json."""
+"""Regenerate sections 7.2 - 7.6 of DESIGN.md from the evidence files, the known-findings file and seeded/*/meta.json."""
 import glob
 import json
 import os
@@ -15,7 +15,7 @@ FINDINGS = [
     ("F3", "C12", "empty token accepted as index 0", "fixed eddafce (C12.R1)"),
     ("F4", "C13", "NULL `op`/`from`/`path` to strcmp/strlen", "fixed 951536c (C13.R1)"),
     ("F5", "C13", "add/replace/copy share nodes with the patch document", "known finding (2 entries)"),
-    ("F6", "C08", "43 dropped print-buffer results", "known finding (43 entries)"),
+    ("F6", "C08", "43 dropped print-buffer results in the serializers", "known finding (8 entries, one per (function, callee) group)"),
     ("F7", "C01", "`strdup(tok->pb->buf)` truncates member names at a decoded NUL", "known finding"),
     ("F8", "C16", "strict accepts single-quoted member names", "fixed 8ac72f8 (C16.strict)"),
     ("F9", "C16", "strict accepts the number tokens `00`, `-012`, `01.5`, `5.`, `1.e5`, `-.5`", "fixed 0e6588f (found by C16.X6 once number tokens were made transparent)"),
@@ -32,6 +32,9 @@ FINDINGS = [
     ("F20", "C13", "patch `remove`/`move` deletes by the escaped token", "fixed 7e4ba6f (reported by a seeding sub-agent, then C13.R6)"),
     ("F21", "C02", "NOZERO trims zeros out of the exponent: 1.5e+20 -> `1.5e+2`", "fixed 1d0a43b (reported by a seeding sub-agent, then C02.R6)"),
     ("F22", "C13", "move / copy from `/a` to `/ab` refused: from/path overlap tested on the strings, not on reference tokens", "fixed 1b76f14 (found by C13.R7)"),
+    ("F23", "C10", "`json_object_get_uint64` of the string `\\t-1` returns 2^64-1: `json_parse_uint64` skips only `' '` before its `-` test, `strtoull` skips all white space and negates", "fixed 66949f5 (found by C10.R6, written for a fourth-round seed)"),
+    ("F24", "C08", "`json_c_set_serialization_double_format(fmt, GLOBAL)` with a failing `strdup` frees the old global format and leaves the global dangling (use after free on the next double, double free on the next call)", "fixed aafd838 (found by C08.R6, written for a fourth-round seed)"),
+    ("F25", "C03", "`-0` + `Infinity` in two calls enters the -Infinity state, in one call returns -0: the test uses `case_len`, the byte count of *this call*", "fixed bc447aa (found by C16.X8n, written for a fourth-round seed)"),
 ]
 
 out = []
@@ -77,7 +80,7 @@ for p in sorted(glob.glob(os.path.join(V, "evidence", "C*.json"))):
 
 out.append("""### 7.4 Independent seeded changes (sub-agents given only the property text and a scratch worktree)
 
-Three rounds, one change per property and round; the second- and third-round agents were additionally told the one-line
+Four rounds, one change per property and round; the second- and third-round agents were additionally told the one-line
 descriptions of the earlier changes for their property and asked for a different site and mechanism. Each change was confirmed by
 `tools/verify_seed.sh` (demo passes on HEAD, patch builds, suite 25/25, demo fails with the patch) and run against the checks with
 `tools/run_seed.sh` (apply to /repo, check, `git checkout`); `tools/all_seeds.sh` re-runs all of them against the current checks.
@@ -109,7 +112,72 @@ that evaluates a routine on one-element inputs says nothing about what the routi
 `tools/selftest.py` (about 200, including behaviour-preserving variants that must stay silent) are the regression suite for the
 checkers themselves.
 
-### 7.5 Honest limits
+Fourth round (20 changes, written after the refactoring suites of 7.5 had made the rules shape-independent): caught as submitted
+11 (c01d, c03d, c05d, c07d, c09d, c14d, c15d, c17d, c18d, c20d; c12d only through a false leak report, see below). Missed,
+and the rule each caused: c10d (C10.R6: `json_parse_int64` / `json_parse_uint64` evaluated on every short text over blank, TAB,
+sign, digit, letter and on the boundary numerals, `strtoll` / `strtoull` at their ISO C contracts - which found F23 on the unchanged
+tree), c12d and c13d (C12.R8 / C13.R6: *member names by evaluation* - every function that hands a string to the object API is run on
+concrete reference tokens, including lengths that straddle each buffer size and length constant found in the function, and the
+string that reaches `json_object_object_add / get_ex / del` must be the RFC 6901 decoding; this replaced the structural C13.R6),
+c08d (C08.R5: no `free` of a pointer-to-const parameter, decided path by path with the integer parameters ranging over the masks
+they are tested against), c04d (C08.R6: a block released through a field of a caller-visible object must not stay in that field
+when the function returns - which found F24), c11d (C11.R5 terminator obligation on every successful path of the string set),
+c19d (C19.R7: every byte that becomes part of the text during a fill is written by that call, unless no function lowers `bpos` while
+keeping the bytes), c06d (C06.R3a: the lookup, evaluated on the table the insert leaves, can return the slot the insert chose - for
+table sizes 8, 6, 5, 3 and hashes below and above the size), c16d (C16.X8n: a finished top-level number followed by a trailing byte,
+token buffer modelled - which found F25), c02d (C09.R6 extended to the routine that copies serializer user data: same serializer
+function, own block, same delete function; shared into C02). c12d had been "caught" by a leak report that was itself wrong
+(`if (key != stackbuf) free(key)`: the ownership engine did not know that an allocator result never equals the address of a
+local); the engine was corrected first, then the change was caught for the right reason by C12.R8. The evaluator also resolved
+string literals of an *inlined* function in the caller's module; module-private globals are now qualified by the module of the
+frame that names them.
+
+### 7.5 Behaviour-preserving refactorings (the "never raises an alarm where the property holds" side)
+
+A checker that is exact on today's source but alarms on the same behaviour written differently is a false alarm in waiting, so the
+checks are also run against edits that keep every property true. Two suites are stored under `benign/` (patch + the author's
+argument why nothing changes; each builds, passes 25/25, and `tools/all_benign.sh` applies it to /repo, runs all 20 checks, undoes
+it). They were written by sub-agents that saw only the property text and a scratch worktree, and were asked to restructure the code
+the property is anchored in as far as a maintainer plausibly would: **B-c01..c20** (light: renames, guard styles, loop forms, early
+returns vs flags) and **B2-c01..c20** (deep: helpers split out or merged, switch <-> if ladders, result flags instead of early
+returns, tables instead of chains, iterator macros replaced by direct table walks, callbacks merged behind a mode argument).
+
+The light suite was silent on 18 of 20 at first run; the two alarms (an append whose text comes from a constant local, B-c01; an
+unescape routine that is called instead of being inlined, B-c12) were rule bugs and were fixed. The deep suite was the productive one:
+about thirty distinct false alarms on the first run. Every one was a rule that *recognised a shape* and answered REFUTED when the shape was gone.
+The correction was the same each time and is now the working principle of the whole tool:
+
+> **REFUTED needs a positive witness** (a concrete input, state, path or decision-table row on which the code does the wrong
+> thing). "The construct I was looking for is not there" is UNDECIDED, or - better - the rule is restated so that it is decided
+> by evaluation on a finite family and has no preferred shape at all.
+
+What this changed, by engine:
+
+* front end: new static helpers are inlined (`tools/known_internal.json` lists the internal functions of the reference tree; all
+  others get `alwaysinline`), the receiving functions are then jump-threaded so that a helper's `return -1` / `return 0` followed by
+  the caller's test of that code collapses back into the branch structure the rules see on the reference tree;
+* condition refinement (ownership, null-flow, taint, Walker) follows values through `zext`/`trunc`, single-entry phis, boolean flags
+  (`int ok = (p != NULL); ... if (ok)`), and selects (forking on pointer selects);
+* the Walker knows the induction bounds of up- and down-counting loops with `<`, `<=`, `!=` exits; a slot written inside a loop is
+  "loop-written" (UNDECIDED for index rules), not wrong;
+* rules restated as decision tables evaluated on the IR: C02.R1/R3 (escape writer: local buffers, literal offsets, text + length pairs),
+  C02.R5 (classes of the double per CFG edge, texts chosen through a phi of literals), C09.R4 (container equality on scripted pairs of
+  objects / arrays, whatever helpers it is decomposed into), C11.R6 (data-pointer flow instead of callee names), C12.R1/R3/R5/R7
+  (tokens evaluated concretely; the unescape routine is found by what it does, not by name), C13.R2 (operation dispatch evaluated on
+  the six operation names and near misses), C13.R7, C14 (fix-up of the locale's decimal point evaluated on formatted texts),
+  C15.R4 (depth decision table), C18.R1 (the destroy decision evaluated through boolean conversions), C20 (read / write loops run
+  against scripted short-count sequences);
+* known-finding keys no longer contain local variable names, ordinals or line numbers: they are `(rule, function, normalised
+  construct)` and, for F6, grouped per `(function, callee)`, so a refactoring that renames a temporary or moves a dropped result
+  neither hides nor duplicates a finding;
+* instance floors (the vacuity guard) are 60 % of the count confirmed on the reference tree, and are not applied when a rule is run
+  as a *shared* rule under another property (`chk.shared()`), because a refactoring legitimately merges call sites.
+
+What remains after these corrections (and is accepted): a refactoring that removes an anchor a rule is *about* - B2-c08 and B2-c13
+fold the function C13.R6 is anchored in - ends as analysis-broken (exit 2) for that one check, never as a violation; exit 2 asks
+for the anchor table to be re-confirmed by a person, which is the documented meaning of that code.
+
+### 7.6 Honest limits
 
 * Number and literal tokens are modelled with the token buffer concrete (`jcv/numtok.py`): numbers exactly up to digit-run
   collapsing with strtod / strtoll / strtoull at their ISO C contracts, literals (null / true / false / NaN) letter by letter with
